@@ -112,6 +112,9 @@ func ownsObligation(pe *PropEntry, unit string, name string) bool {
 	return true
 }
 
+// allUnitOwners: unit (short name) -> properties whose checks verify it (from properties.map.json)
+var allUnitOwners = map[string][]string{}
+
 func cmdCheck(args []string) int {
 	fs := flag.NewFlagSet("check", flag.ExitOnError)
 	prop := fs.String("property", "", "property id")
@@ -132,6 +135,14 @@ func cmdCheck(args []string) int {
 	if err := loadJSON(filepath.Join(vd, "properties.map.json"), &pm); err != nil {
 		fmt.Println("cannot read properties.map.json:", err)
 		return 2
+	}
+	for pid, e := range pm.Properties {
+		for _, u := range e.Units {
+			allUnitOwners[u] = append(allUnitOwners[u], pid)
+		}
+	}
+	for _, o := range allUnitOwners {
+		sort.Strings(o)
 	}
 	pe := pm.Properties[*prop]
 	if pe == nil {
@@ -390,6 +401,46 @@ func runProperty(prop string, pe *PropEntry, kf *KnownFindings, repo, vd string,
 	}
 	if len(enumDone) > 0 {
 		res.Extra["enumerated_side_conditions"] = enumDone
+	}
+	// callee contracts the units relied on: verified in this run (the callee is one of the units), trusted (stated, body not
+	// verified anywhere), assumed (library model), or verified under another property's check
+	{
+		unitKeys := map[string]bool{}
+		for _, u := range units {
+			unitKeys[u.Key] = true
+		}
+		type cc struct {
+			Contract string `json:"contract"`
+			Status   string `json:"status"`
+		}
+		seen := map[string]bool{}
+		var list []cc
+		for _, u := range units {
+			if u.Exec == nil {
+				continue
+			}
+			for k, sp := range u.Exec.usedSpecs {
+				if seen[k] {
+					continue
+				}
+				seen[k] = true
+				st := "NOT VERIFIED BY ANY CHECK: the contract is used as an assumption"
+				if owners := allUnitOwners[unitShortName(k)]; len(owners) > 0 {
+					st = "verified by the check of " + strings.Join(owners, ", ") + " (not re-verified in this run)"
+				}
+				switch {
+				case sp.Extern:
+					st = "assumed (library model in /verif/models)"
+				case sp.Trusted:
+					st = "TRUSTED: stated, the body is not verified by any check"
+				case unitKeys[k]:
+					st = "verified in this run"
+				}
+				list = append(list, cc{unitShortName(k), st})
+			}
+		}
+		sort.Slice(list, func(a, b int) bool { return list[a].Contract < list[b].Contract })
+		res.Extra["callee_contracts_relied_on"] = list
 	}
 	if coverTotal > 0 {
 		res.Extra["block_cover_probes"] = map[string]interface{}{"probed": coverTotal, "proved_reachable": coverReach, "proved_unreachable": coverUnreach,
